@@ -134,6 +134,18 @@ namespace awkward {
       }
     }
     ContentPtrVec contents = array_.get()->contents();
+    for (size_t j = 0;  j < cols;  j++) {
+      // the fields are read with getitem_at_nowrap below
+      if (contents[j].get()->length() <= at_) {
+        util::handle_error(
+          failure("len(field) < len(recordarray)",
+                  kSliceNone,
+                  at_,
+                  FILENAME_C(__LINE__)),
+          classname(),
+          nullptr);
+      }
+    }
     builder.beginrecord();
     for (size_t j = 0;  j < cols;  j++) {
       builder.field(keys.get()->at(j).c_str());
